@@ -196,8 +196,9 @@ CHECKS = {
                   "documented encoding of any message within the writer's guards, anywhere in a file, returns that message and the next "
                   "position; a whole encoded log scans back to exactly its messages at the prefix-sum positions; encoded record and "
                   "index-item lengths equal Size/Params.Size; conversely whatever the V2 decoder accepts is byte for byte the documented "
-                  "encoding of what it returns, and the encoding is injective. Stat of the log-level model counts the index items that "
-                  "the invariant ties to the records. The layout is tied to /repo byte for byte: files written by message.Writer / "
+                  "encoding of what it returns (also proved for V1), and the encoding is injective; index files (both versions, all four "
+                  "layouts) round-trip through index.Write / index.Read; Stat of the log-level model reports exactly the number of live "
+                  "messages. The layout is tied to /repo byte for byte: files written by message.Writer / "
                   "index.Write for random messages (lengths 0..300, int64 extremes, both versions, four index layouts) must equal the Coq "
                   "encoder's bytes, and encoder-written files must be read back identically by the file and the mmap reader; Stat vs live "
                   "count and vs the sum of file sizes after every op of seeded histories.",
@@ -259,7 +260,9 @@ CHECKS = {
                   "hash function, the model's log.Consume is accepted by the L0 checker check_consume (prefix of the live messages at/after "
                   "the offset, next=last+1, no live message stepped over, OffsetNewest, ErrInvalidOffset beyond NextOffset); the transcribed "
                   "binary searches of index.Consume / segment.Consume are characterised for arrays of any length incl. their termination "
-                  "(fuel) argument. The model is tied to /repo by running the same seeded histories on klevdb and on the extracted model "
+                  "(fuel) argument; Consume returns no message only when nothing is left at or after the offset, and feeding the returned "
+                  "offset back from OffsetOldest visits every live message exactly once, in order, and stops at NextOffset "
+                  "(full_scan_correct, every maxCount >= 1). The model is tied to /repo by running the same seeded histories on klevdb and on the extracted model "
                   "and comparing every Consume(off,max) for off in [-5,next+2]; the same checker is evaluated on the implementation's own "
                   "output to exhibit a failing history.",
              ref='6/C03', technique='Coq proof (invariant + refinement to L0 checker) + differential correspondence with extracted model'),
